@@ -7,6 +7,8 @@ from pyvc.contracts import target, external, R, implies, table_key
 import spec.core as S
 import spec.avro as A
 import spec.container as C
+import contracts.lemmas as L
+from pyvc.contracts import same
 
 W = "fastavro/_write_py.py"
 
@@ -244,3 +246,31 @@ class write_block:
         and self.encoder._fo.pos == len(self.encoder._fo.data)
         and self.io._fo.data == b"" and self.block_count == 0
         and block.bytes_.data == old.block.bytes_.data)
+
+
+@target(W, "write_header")
+class write_header:
+    """C04/C05: the header is the specification's: magic, the metadata map (values UTF-8 encoded), the sync marker, in the
+    binary encoding of the header record"""
+    types = dict(encoder="BinaryEncoder", metadata="dict", sync_marker="bytes")
+    requires = lambda encoder, metadata, sync_marker: (
+        encoder._fo.pos == len(encoder._fo.data) and len(sync_marker) == 16
+        and A.ALL_STR(list(metadata), 0) and A.ALL_STR(list(metadata.values()), 0))
+    modifies = ["encoder._fo"]
+    opaque_here = ["SEL", "STRIP", "DEFER_DOUBLE", "FIRST_NONREC", "BEST_REC", "CONFORMS", "WF", "DEFAULTS_DATA", "ENC"]
+    hints = [lambda: L.header_schema_ok({})]
+    call_behaviors = dict(write_data="default")
+    raises = [R("OverflowError", must=False, ensures=lambda encoder: encoder._fo.data.startswith(old.encoder._fo.data))]
+    loops = {"comp0": lambda metadata: (
+        same(_acc, C.META_ENC(metadata, _i))
+        and A.ALL_STR(list(metadata), _i) and A.ALL_STR(list(metadata.values()), _i)
+        and A.ALL_STR_R(list(_acc), len(_acc))
+        and A.ALL_VALID_R(list(_acc.values()), "bytes", {}, {}, len(_acc)))}
+    loop_hints = {"comp0": [lambda: L.map_step(_acc, _newkey, _newval, "bytes", {}, {})]}
+    exit_hints = {"comp0": [lambda: L.allstr_bridge(list(_acc), len(_acc)),
+                            lambda: L.allvalid_bridge(list(_acc.values()), "bytes", {}, {}, len(_acc)),
+                            lambda: L.bytes_valid_conform(list(_acc.values()), 0),
+                            lambda: L.header_conforms(_acc, sync_marker)]}
+    ensures = lambda encoder, metadata, sync_marker, result: (
+        encoder._fo.data == old.encoder._fo.data + C.HEADER_BYTES(metadata, sync_marker)
+        and encoder._fo.pos == len(encoder._fo.data))
